@@ -108,7 +108,9 @@ def _snapshot(sa, what):
         c = sa.refinement.get_refinement_container_for_dim(d)
         trees.append([[sx.rat(o.start), sx.rat(o.end), int(o.levels[0]), int(o.levels[1]), int(o.coarsening_level)]
                       for o in c.get_objects()])
-        book.append([[int(p) for p in c.popArray], int(c.startNewObjects), int(c.searchPosition)])
+        # startNewObjects (which objects count as 'new') is bookkeeping of the evaluation phase, not of the refinement
+        # structure: it is not compared (the C14 repair clears the marker after every evaluation)
+        book.append([[int(p) for p in c.popArray], 0, int(c.searchPosition)])
     st = dict(trees=trees, lmax=[int(x) for x in sa.lmax],
               scheme=sorted([[int(x) for x in g.levelvector], sx.rat(g.coefficient)] for g in sa.scheme),
               book=[book, int(sa.refinement.curContainer)])
@@ -314,7 +316,7 @@ def decode_model_state(ms):
     st = dict(trees=[[[sx.q(o[0]), sx.q(o[1]), o[2], o[3], o[4]] for o in t] for t in trees], lmax=lmax,
               active=sorted(active), old=sorted(old),
               scheme=sorted([k, sx.rat(c)] for k, c in coeffs),
-              book=[[[b[0], b[1], b[2]] for b in book[0]], book[1]],
+              book=[[[b[0], 0, b[2]] for b in book[0]], book[1]],
               tree_ok=[bool(x) for x in oks])
     if stripes:
         st['stripes'] = [[[l, ([[sx.q(p[0]), p[1]] for p in s] if not sx.is_err(s) else 'ERR')] for l, s in per] for per in stripes]
